@@ -1,0 +1,73 @@
+//go:build verif
+
+// Contracts for package reader, checked by /verif/govc (comment-only file; it declares nothing).
+package reader
+
+//@ ghost field Reader.base []byte = data
+//@ globalinv errReader != nil
+//@ pred inv(r *Reader) = 0 <= r.count && r.count <= len(r.base) && r.data == r.base[r.count:]
+//@ spec be8(b []byte, p mathint) mathint = b[p]
+//@ spec be16(b []byte, p mathint) mathint = b[p]*256 + b[p+1]
+//@ spec be32(b []byte, p mathint) mathint = b[p]*16777216 + b[p+1]*65536 + b[p+2]*256 + b[p+3]
+//@ spec be64(b []byte, p mathint) mathint = be32(b, p)*4294967296 + be32(b, p+4)
+
+//@ func NewReader
+//@   ensures result != nil && result.base == b && result.data == b && result.count == 0 && inv(result)
+
+//@ func (*Reader).Uint8
+//@   requires inv(r)
+//@   ensures inv(r) && r.base == old(r.base)
+//@   ensures old(len(r.data)) >= 1 ==> err == nil && result == be8(old(r.base), old(r.count)) && r.count == old(r.count) + 1
+//@   ensures old(len(r.data)) < 1 ==> err != nil && result == 0 && r.count == old(r.count) && r.data == old(r.data)
+//@   modifies r.data, r.count
+
+//@ func (*Reader).Uint16
+//@   requires inv(r)
+//@   ensures inv(r) && r.base == old(r.base)
+//@   ensures old(len(r.data)) >= 2 ==> err == nil && result == be16(old(r.base), old(r.count)) && r.count == old(r.count) + 2
+//@   ensures old(len(r.data)) < 2 ==> err != nil && result == 0 && r.count == old(r.count) && r.data == old(r.data)
+//@   modifies r.data, r.count
+
+//@ func (*Reader).Uint32
+//@   requires inv(r)
+//@   ensures inv(r) && r.base == old(r.base)
+//@   ensures old(len(r.data)) >= 4 ==> err == nil && result == be32(old(r.base), old(r.count)) && r.count == old(r.count) + 4
+//@   ensures old(len(r.data)) < 4 ==> err != nil && result == 0 && r.count == old(r.count) && r.data == old(r.data)
+//@   modifies r.data, r.count
+
+//@ func (*Reader).Uint64
+//@   requires inv(r)
+//@   ensures inv(r) && r.base == old(r.base)
+//@   ensures old(len(r.data)) >= 8 ==> err == nil && result == be64(old(r.base), old(r.count)) && r.count == old(r.count) + 8
+//@   ensures old(len(r.data)) < 8 ==> err != nil && result == 0 && r.count == old(r.count) && r.data == old(r.data)
+//@   modifies r.data, r.count
+
+//@ func (*Reader).Read
+//@   requires inv(r)
+//@   ensures inv(r) && r.base == old(r.base)
+//@   ensures 0 <= n && n <= old(len(r.data)) ==> err == nil && result == old(r.data)[:n] && r.count == old(r.count) + n
+//@   ensures !(0 <= n && n <= old(len(r.data))) ==> err != nil && len(result) == 0 && r.count == old(r.count) && r.data == old(r.data)
+//@   modifies r.data, r.count
+
+//@ func (*Reader).Peek
+//@   requires inv(r)
+//@   ensures 0 <= n && n <= len(r.data) ==> err == nil && result == r.data[:n]
+//@   ensures !(0 <= n && n <= len(r.data)) ==> err != nil && len(result) == 0
+
+//@ func (*Reader).PeekUint16
+//@   requires inv(r)
+//@   ensures len(r.data) >= 2 ==> err == nil && res == be16(r.base, r.count)
+//@   ensures len(r.data) < 2 ==> err != nil && res == 0
+
+//@ func (*Reader).Len
+//@   ensures result == len(r.data)
+
+//@ func (*Reader).advance
+//@   requires inv(r) && 0 <= num && num <= len(r.data)
+//@   ensures inv(r) && r.base == old(r.base) && r.count == old(r.count) + num && r.data == old(r.data)[num:]
+//@   modifies r.data, r.count
+
+//@ func (*Reader).ReadCount
+//@   ensures result == r.count
+
+//@ lemma accounting(r *Reader): r != nil && inv(r) ==> r.count + len(r.data) == len(r.base)
